@@ -69,3 +69,60 @@ Print Assumptions C03_errors_invalid.
 Print Assumptions C19_get_unconvertible.
 Print Assumptions C08_client_no_panic.
 Print Assumptions crun_never_out_of_fuel.
+
+(* ---- lifted to networks (package K, Net_proofs40/41): in EVERY run of a net (any op list, no hypotheses) the client half of
+   every node is Client.v run on the ops the net delivered to it (`cops_run`, exact ghost) and the node's events are that
+   client's outputs; hence: no two events for one (node, query id), every event's id was issued by an NGet of that node, a
+   query cancelled before its answer reached the node never has an event, an unconvertible CID yields exactly one error. *)
+From BS Require Import Types Wantlist Wantlist_proofs2 Client Client_proofs Client_proofs4 Net Net_proofs Net_proofs6 Net_props Net_proofs2 Net_proofs5 Net_proofs21 Net_proofs40 Net_proofs41 Net_proofs42 Net_proofs43 Net_proofs44 Net_proofs45 Net_proofs46 Net_proofs47 Server Net_props4.
+From Coq Require Import ZArith Lia.
+Open Scope N_scope.
+
+Theorem net_client_ghost :
+  forall (Sz : N) (Hh : hash_fn) (n : nat) (ops : list nop) (i : N) (ni : node),
+  get_node (fst (nrun Sz Hh (net_init n) ops)) i = Some ni ->
+  n_client ni = st_after true (cops_run Sz Hh (net_init n) ops i).
+Proof. exact (@Net_props4.net_client_ghost). Qed.
+
+Theorem net_client_events :
+  forall (Sz : N) (Hh : hash_fn) (n : nat) (ops : list nop) (i : N),
+  (N.to_nat i < n)%nat ->
+  node_evs i (snd (nrun Sz Hh (net_init n) ops)) =
+  out_evs (outs_after true (cops_run Sz Hh (net_init n) ops i)).
+Proof. exact (@Net_props4.net_client_events). Qed.
+
+Theorem C03_net_one_outcome :
+  forall (Sz : N) (Hh : hash_fn) (n : nat) (ops : list nop),
+  let evs := snd (nrun Sz Hh (net_init n) ops) in
+  NoDup (ev_keys evs) /\
+  (forall (i : N) (q : qid), In (i, q) (ev_keys evs) -> (N.to_nat i < n)%nat /\ q < count_ngets i ops) /\
+  (forall (ops1 : list nop) (i : N) (q : qid) (ops2 : list nop),
+   ops = ops1 ++ NCancel i q :: ops2 ->
+   q < count_ngets i ops1 ->
+   ~ In (i, q) (ev_keys (snd (nrun Sz Hh (net_init n) ops1))) ->
+   (forall ni : node,
+    get_node (fst (nrun Sz Hh (net_init n) ops1)) i = Some ni -> ~ In q (queue_qids (cs_queue (n_client ni)))) ->
+   ~ In (i, q) (ev_keys evs)).
+Proof. exact (@Net_props4.C03_net_one_outcome). Qed.
+
+Theorem C03_net_cancel_after_poll :
+  forall (Sz : N) (Hh : hash_fn) (n : nat) (ops0 : list nop) (i q : N) (ops2 : list nop),
+  q < count_ngets i ops0 ->
+  ~ In (i, q) (ev_keys (snd (nrun Sz Hh (net_init n) (ops0 ++ [NPoll i])))) ->
+  ~ In (i, q) (ev_keys (snd (nrun Sz Hh (net_init n) ((ops0 ++ [NPoll i]) ++ NCancel i q :: ops2)))).
+Proof. exact (@Net_props4.C03_net_cancel_after_poll). Qed.
+
+Theorem C03_net_errors_invalid :
+  forall (Sz : N) (Hh : hash_fn) (n : nat) (ops1 : list nop) (i : N) (c : cid) (ops2 : list nop),
+  (N.to_nat i < n)%nat ->
+  convert_cid Sz c = None ->
+  let q := count_ngets i ops1 in
+  let evs := snd (nrun Sz Hh (net_init n) (ops1 ++ NGet i c :: ops2 ++ [NPoll i])) in
+  In (EError i q 0) evs /\ (forall e : nevent, In e evs -> In (i, q) (nev_key e) -> e = EError i q 0).
+Proof. exact (@Net_props4.C03_net_errors_invalid). Qed.
+
+Print Assumptions net_client_ghost.
+Print Assumptions net_client_events.
+Print Assumptions C03_net_one_outcome.
+Print Assumptions C03_net_cancel_after_poll.
+Print Assumptions C03_net_errors_invalid.
